@@ -1,4 +1,5 @@
 import Verif.Lemmas.C16
+import Verif.Lemmas.C16Rfc
 /-! # C16 — Time-range and step flags resolve as documented
 
 Theorems over `Flags.parseTimestamp` / `parseTimeRange` / `parseStep` / `defaultStep` (models of cmd/docker-logql/params.go, tied to the `verif`-tagged build by the C16 correspondence).  Exact decimal arithmetic: Go's float64 parsing/rounding of the fractional spelling is outside the model and validated over all 1000 millisecond values.  The RFC3339 spelling is covered by the correspondence (instants 2001-2200 with zone offsets), not by a theorem (no calendar round-trip proof). -/
@@ -118,5 +119,19 @@ theorem C16_spelling_fractional :
           parseTimestamp (Bytes.natToDec s ++ [46] ++ pad3 ms) d = some ((↑s : Int) * 1000000000 + (↑ms : Int) * 1000000) :=
   @spelling_fractional
 
+/-- **C16 (spellings)**: the RFC 3339 spelling of any instant of the years 1970–9999 denotes that instant,
+to the nanosecond (hand-added; proved in Lemmas/C16Rfc.lean on top of the calendar proof) -/
+theorem C16_spelling_rfc3339 (t : Nat) (ht : t < 253402300800000000000) (d : Int) :
+    parseTimestamp (Render.rfc3339Nano t) d = some (t : Int) :=
+  spelling_rfc3339 t ht d
+
+/-- **C16 (the four spellings agree)**: unix seconds with milliseconds, unix nanoseconds and RFC 3339 of one
+whole-millisecond instant denote the same instant -/
+theorem C16_four_spellings_agree (s ms : Nat) (hs : 10 ≤ s) (hs2 : s < 9223372036) (hms : ms < 1000) (d1 d2 d3 : Int) :
+    parseTimestamp (Render.rfc3339Nano (s * 1000000000 + ms * 1000000)) d1 =
+      parseTimestamp (Bytes.natToDec s ++ [46] ++ pad3 ms) d2 ∧
+    parseTimestamp (Bytes.natToDec (s * 1000000000 + ms * 1000000)) d3 =
+      parseTimestamp (Bytes.natToDec s ++ [46] ++ pad3 ms) d2 :=
+  four_spellings_agree s ms hs hs2 hms d1 d2 d3
 
 end Flags.C16
